@@ -33,7 +33,7 @@ func (p *PointVector) Edge(i int) Edge                   { return Edge{(*p)[i], 
 func (p *PointVector) ReferencePoint() ReferencePoint    { return OriginReferencePoint(false) }
 func (p *PointVector) NumChains() int                    { return len(*p) }
 func (p *PointVector) Chain(i int) Chain                 { return Chain{i, 1} }
-func (p *PointVector) ChainEdge(i, j int) Edge           { return Edge{(*p)[i], (*p)[j]} }
+func (p *PointVector) ChainEdge(i, j int) Edge           { return Edge{(*p)[i], (*p)[i]} }
 func (p *PointVector) ChainPosition(e int) ChainPosition { return ChainPosition{e, 0} }
 func (p *PointVector) Dimension() int                    { return 0 }
 func (p *PointVector) IsEmpty() bool                     { return defaultShapeIsEmpty(p) }
